@@ -380,7 +380,9 @@ impl<'i, const N: usize, I: SuperClassProvider> BRemapper for BRemapperImpl<'_, 
 impl<const N: usize, Ns> Mappings<N, Ns> {
 	pub fn remapper_b<'i, I>(&self, from: Namespace<N>, to: Namespace<N>, inheritance: &'i I) -> Result<BRemapperImpl<'_, 'i, N, I>> {
 		let remapper_a_from = self.remapper_a(Namespace::new(0)?, from)?;
-		let remapper_a_to = self.remapper_a(Namespace::new(0)?, to)?;
+		// the descriptor answered for a member is its descriptor in `from` mapped like any other descriptor,
+		// so that class names without a name in `to` stay as they are in `from`
+		let remapper_a_to = self.remapper_a(from, to)?;
 
 		let mut classes = IndexMap::new();
 		for class in self.classes.values() {
@@ -390,7 +392,7 @@ impl<const N: usize, Ns> Mappings<N, Ns> {
 				for field in class.fields.values() {
 					if let (Some(name_from), Some(name_to)) = (&field.info.names[from], &field.info.names[to]) {
 						let desc_from = remapper_a_from.map_field_desc(&field.info.desc)?;
-						let desc_to = remapper_a_to.map_field_desc(&field.info.desc)?;
+						let desc_to = remapper_a_to.map_field_desc(&desc_from)?;
 
 						fields.insert(TupleKey(name_from.as_slice(), desc_from), TupleKey(name_to.as_slice(), desc_to));
 					}
@@ -400,7 +402,7 @@ impl<const N: usize, Ns> Mappings<N, Ns> {
 				for method in class.methods.values() {
 					if let (Some(name_from), Some(name_to)) = (&method.info.names[from], &method.info.names[to]) {
 						let desc_from = remapper_a_from.map_method_desc(&method.info.desc)?;
-						let desc_to = remapper_a_to.map_method_desc(&method.info.desc)?;
+						let desc_to = remapper_a_to.map_method_desc(&desc_from)?;
 
 						methods.insert(TupleKey(name_from.as_slice(), desc_from), TupleKey(name_to.as_slice(), desc_to));
 					}
